@@ -8,6 +8,7 @@ package main
 
 import (
 	"bufio"
+	"encoding/json"
 	"flag"
 	"fmt"
 	"os"
@@ -69,6 +70,77 @@ func encodeQR(content string, level, mode int) (out []int, version int, ok bool)
 		}
 	}
 	return out, v, true
+}
+
+// azsel: for every (payload, percentage) of the input the automatic size choice, and explicit requests for the sizes around it, made through
+// the public API, together with the high-level bit stream the choice is based on (packed into bytes, most significant bit first).
+func azsel(w *bufio.Writer, in string) {
+	type size struct{ width, req int }
+	var sizes []size
+	for L := 1; L <= 4; L++ {
+		sizes = append(sizes, size{11 + 4*L, -L})
+	}
+	for L := 1; L <= 32; L++ {
+		b := 14 + 4*L
+		sizes = append(sizes, size{b + 1 + 2*((b/2-1)/15), L})
+	}
+	f, err := os.Open(in)
+	if err != nil {
+		fmt.Fprintln(os.Stderr, err)
+		os.Exit(2)
+	}
+	sc := bufio.NewScanner(f)
+	sc.Buffer(make([]byte, 1<<20), 1<<26)
+	for sc.Scan() {
+		var j struct {
+			Content []int `json:"content"`
+			Pct     int   `json:"pct"`
+		}
+		if err := json.Unmarshal(sc.Bytes(), &j); err != nil {
+			fmt.Fprintln(os.Stderr, err)
+			os.Exit(2)
+		}
+		data := make([]byte, len(j.Content))
+		for i, c := range j.Content {
+			data[i] = byte(c)
+		}
+		bits := aztec.VerifHighLevel(data)
+		packed := make([]int, (len(bits)+7)/8)
+		for i, b := range bits {
+			if b {
+				packed[i/8] |= 0x80 >> uint(i%8)
+			}
+		}
+		one := func(req int) (kind string, width int) {
+			defer func() {
+				if r := recover(); r != nil {
+					kind, width = "panic", 0
+				}
+			}()
+			bc, err := aztec.Encode(append([]byte(nil), data...), j.Pct, req)
+			if err != nil || bc == nil {
+				return "error", 0
+			}
+			return "ok", bc.Bounds().Dx()
+		}
+		emit := func(req int, kind string, width int) {
+			w.WriteString(`{"sym":"azsel","content":`)
+			writeInts(w, j.Content)
+			w.WriteString(`,"p":[` + strconv.Itoa(j.Pct) + "," + strconv.Itoa(req) + `],"hln":` + strconv.Itoa(len(bits)) + `,"hlb":`)
+			writeInts(w, packed)
+			w.WriteString(`,"kind":"` + kind + `","w":` + strconv.Itoa(width) + "}\n")
+		}
+		kind, aw := one(0)
+		emit(0, kind, aw)
+		for _, s := range sizes {
+			if kind != "ok" || (s.width >= aw-12 && s.width <= aw+4) {
+				if kind == "ok" || s.req == 32 || s.req == -4 {
+					k2, w2 := one(s.req)
+					emit(s.req, k2, w2)
+				}
+			}
+		}
+	}
 }
 
 var padFlag = flag.Int("pad", 0, "dm: number of pad codewords to append")
@@ -135,11 +207,12 @@ func encode(sym string, content []int) (out []int, ok bool) {
 }
 
 func main() {
-	sym := flag.String("sym", "", "pdf | aztec | c128 | dm | qr | pdfdims")
+	sym := flag.String("sym", "", "pdf | aztec | c128 | dm | qr | pdfdims | azsel")
 	alpha := flag.String("alphabet", "", "comma separated byte / rune values")
 	maxlen := flag.Int("maxlen", 3, "maximal suffix length")
 	prefix := flag.String("prefix", "", "comma separated fixed prefix")
 	outp := flag.String("out", "", "output file (ndjson)")
+	inp := flag.String("in", "", "azsel: input file, one {\"content\":[...],\"pct\":n} per line")
 	flag.Parse()
 	f, err := os.Create(*outp)
 	if err != nil {
@@ -147,6 +220,12 @@ func main() {
 		os.Exit(2)
 	}
 	w := bufio.NewWriterSize(f, 1<<20)
+	if *sym == "azsel" {
+		azsel(w, *inp)
+		w.Flush()
+		f.Close()
+		return
+	}
 	if *sym == "pdfdims" { // every number of data codewords x every security level: the shape the real chooser returns
 		for m := 0; m <= 930; m++ {
 			for lv := 0; lv <= 8; lv++ {
